@@ -66,7 +66,7 @@ func runC13(c *Ctx) {
 		}
 		rl := c.findRetransLoop(hs)
 		onSuccess := false
-		if rl != nil && rl.idx != nil {
+		if rl != nil && (rl.idx != nil || rl.waitCall != nil) {
 			for k := range rl.sel.States {
 				if timerChan(rl.sel.States[k].Chan, "RetransmitInterval") {
 					continue
@@ -100,13 +100,27 @@ func runC13(c *Ctx) {
 				dwrCall, dwrFn = call, g
 			}
 		}
+		// the select may live in a boolean wait helper called from the loop
+		var waitCall *ssa.Call
+		var caseVal map[int]bool
+		if sel == nil {
+			for _, ci := range flow.CallInstrs(wd) {
+				if hc, ok := ci.(*ssa.Call); ok {
+					if h := flow.StaticCallee(hc); h != nil && c.P.IsLibrary(h) {
+						if hs, vals := selectHelper(h); hs != nil && len(vals) == len(hs.States) {
+							sel, waitCall, caseVal = hs, hc, vals
+						}
+					}
+				}
+			}
+		}
 		switch {
 		case sel == nil || len(loops) == 0:
 			r.Fail("R1", key, c.fpos(wd), "the watchdog does not wait in a select loop")
 		case dwrCall == nil:
 			r.Fail("R1", key, c.fpos(wd), "the watchdog never sends a device-watchdog request")
 		default:
-			rl := &retransLoop{fn: wd, sel: sel}
+			rl := &retransLoop{fn: wd, sel: sel, waitCall: waitCall, caseVal: caseVal}
 			for _, ref := range flow.Referrers(sel) {
 				if ex, ok := ref.(*ssa.Extract); ok && ex.Index == 0 {
 					rl.idx = ex
@@ -216,7 +230,7 @@ func runC13(c *Ctx) {
 		if rl.sel != nil {
 			for k, st := range rl.sel.States {
 				if k != rl.timerK && st.Dir == types.RecvOnly {
-					ackv = st.Chan
+					ackv = rl.chanInFn(k)
 				}
 			}
 		}
@@ -264,10 +278,10 @@ func (c *Ctx) c13DWA() {
 	r := c.R
 	n := 0
 	for _, f := range c.P.LibraryFuncs() {
-		if pkgOf(f).Path() != pkgSM || f.Parent() == nil {
+		if pkgOf(f).Path() != pkgSM || f.Synthetic != "" {
 			continue
 		}
-		// a closure whose parent takes a chan struct{} and that parses a DWA
+		// a handler (closure or method) that parses a DWA
 		parsesDWA := false
 		for _, ci := range flow.CallInstrs(f) {
 			if flow.IsCallTo(ci, pkgSMParser, "DWA", "Parse") {
@@ -279,20 +293,49 @@ func (c *Ctx) c13DWA() {
 		}
 		n++
 		key := fname(f) + ":ack-forwarding"
+		// the forward: a select with a send case, in the handler or in a helper it hands a channel to
 		var sel *ssa.Select
-		flow.Instrs(f, func(in ssa.Instruction) {
-			if s, ok := in.(*ssa.Select); ok {
-				for _, st := range s.States {
-					if st.Dir == types.SendOnly {
-						sel = s
+		var selAt ssa.Instruction
+		failed := false
+		scan := func(g *ssa.Function, at ssa.Instruction) {
+			flow.Instrs(g, func(in ssa.Instruction) {
+				if s, ok := in.(*ssa.Select); ok {
+					for _, st := range s.States {
+						if st.Dir == types.SendOnly {
+							sel, selAt = s, in
+							if at != nil {
+								selAt = at
+							}
+						}
 					}
 				}
+				if _, ok := in.(*ssa.Send); ok && !failed {
+					failed = true
+					r.Fail("R3", key, c.pos(in), "the DWA handler sends the acknowledgement with a blocking send")
+				}
+			})
+		}
+		scan(f, nil)
+		if sel == nil && !failed {
+			for _, ci := range flow.CallInstrs(f) {
+				h := flow.StaticCallee(ci)
+				if h == nil || h.Blocks == nil || !c.P.IsLibrary(h) || pkgOf(h).Path() != pkgSM {
+					continue
+				}
+				takesChan := false
+				for _, a := range ci.Common().Args {
+					if _, ok := a.Type().Underlying().(*types.Chan); ok {
+						takesChan = true
+					}
+				}
+				if takesChan {
+					scan(h, ci)
+				}
 			}
-			if _, ok := in.(*ssa.Send); ok {
-				sel = nil
-				r.Fail("R3", key, c.pos(in), "the DWA handler sends the acknowledgement with a blocking send")
-			}
-		})
+		}
+		if failed {
+			continue
+		}
 		if sel == nil {
 			r.Fail("R3", key, c.fpos(f), "the DWA handler never forwards an acknowledgement to the watchdog")
 			continue
@@ -303,7 +346,7 @@ func (c *Ctx) c13DWA() {
 		}
 		// guards: ResultCode == Success (2001) passing, and Parse error nil
 		okRC := false
-		for _, g := range flow.Guards(sel) {
+		for _, g := range flow.Guards(selAt) {
 			rl, ok := condRel(g.If.Cond, g.Taken)
 			if !ok {
 				continue
@@ -314,7 +357,7 @@ func (c *Ctx) c13DWA() {
 				okRC = true
 			}
 		}
-		r.Check(okRC, "R3", key, c.pos(sel), "non-blocking forward dominated by ResultCode == 2001", "a DWA is forwarded as acknowledgement although its Result-Code is not Success: a peer answering with failures is treated as responsive")
+		r.Check(okRC, "R3", key, c.pos(selAt), "non-blocking forward dominated by ResultCode == 2001", "a DWA is forwarded as acknowledgement although its Result-Code is not Success: a peer answering with failures is treated as responsive")
 	}
 	if n == 0 {
 		r.Undecided("R3", "role:dwa-handler", "-", "no closure parsing a DWA found in package sm")
@@ -326,7 +369,7 @@ func (c *Ctx) c13DWR() {
 	r := c.R
 	var h *ssa.Function
 	for _, f := range c.P.LibraryFuncs() {
-		if pkgOf(f).Path() != pkgSM || f.Parent() == nil {
+		if pkgOf(f).Path() != pkgSM || f.Synthetic != "" {
 			continue
 		}
 		for _, ci := range flow.CallInstrs(f) {
@@ -340,6 +383,20 @@ func (c *Ctx) c13DWR() {
 		return
 	}
 	r.Role("DWRHandler", fname(h))
+	// the handler's connection and message parameters (a closure has (c, m), a method (recv, c, m))
+	var connP, msgP *ssa.Parameter
+	for _, p := range h.Params {
+		if flow.TypeIs(p.Type(), pkgDiam, "Conn") {
+			connP = p
+		}
+		if isMsgPtr(p.Type()) {
+			msgP = p
+		}
+	}
+	if connP == nil || msgP == nil {
+		r.Undecided("R4", fname(h)+":handler-shape", c.fpos(h), "the DWR handler does not take (Conn, *Message)")
+		return
+	}
 	var ans *ssa.Call
 	var ansFn *ssa.Function
 	var write ssa.CallInstruction
@@ -372,10 +429,10 @@ func (c *Ctx) c13DWR() {
 		code, ok := flow.ConstInt(ans.Call.Args[1])
 		fromReq := false
 		if ansFn == h {
-			fromReq = len(h.Params) == 2 && flow.Peel(ans.Call.Args[0]) == ssa.Value(h.Params[1])
+			fromReq = flow.Peel(ans.Call.Args[0]) == ssa.Value(msgP)
 		} else if p, isP := flow.Peel(ans.Call.Args[0]).(*ssa.Parameter); isP && helperCall != nil {
 			idx := paramIndex(ansFn, p)
-			fromReq = idx >= 0 && idx < len(helperCall.Call.Args) && len(h.Params) == 2 && flow.Peel(helperCall.Call.Args[idx]) == ssa.Value(h.Params[1])
+			fromReq = idx >= 0 && idx < len(helperCall.Call.Args) && flow.Peel(helperCall.Call.Args[idx]) == ssa.Value(msgP)
 		}
 		r.Check(ok && code == 2001 && fromReq, "R4", key, c.pos(ans), "answer = Answer(Success) of the received request", "the DWA is not built as Answer(2001) of the received DWR")
 	}
@@ -384,7 +441,7 @@ func (c *Ctx) c13DWR() {
 		r.Fail("R4", key, c.fpos(h), "the DWA is never written")
 	} else {
 		okRecv := ans != nil && (derivesFromAnswer(flow.Peel(write.Common().Args[0]), ans) || (helperCall != nil && flow.Peel(write.Common().Args[0]) == ssa.Value(helperCall)))
-		okConn := len(h.Params) == 2 && flow.Peel(write.Common().Args[1]) == ssa.Value(h.Params[0])
+		okConn := flow.Peel(write.Common().Args[1]) == ssa.Value(connP)
 		// written on every path after a successful parse: not guarded by anything but parse success
 		r.Check(okRecv && okConn, "R4", key, c.pos(write), "the answer built from the request is written to the connection the request arrived on", "the DWA written is not the answer to this request, or goes to another connection")
 		// the write must happen on every path that passed Parse successfully
@@ -433,9 +490,27 @@ func (c *Ctx) c13DWR() {
 				case *ssa.ChangeType:
 					v = x.X
 					continue
-				case *ssa.Call:
-					if g := flow.StaticCallee(x); g != nil && g == h.Parent() {
+				case *ssa.MakeClosure:
+					if flow.Unwrap(x.Fn.(*ssa.Function)) == h {
 						found = true
+					}
+				case *ssa.Call:
+					if g := flow.StaticCallee(x); g != nil {
+						if g == h.Parent() {
+							found = true
+						}
+						for _, rv := range flow.ReturnValues(g, 0) {
+							rv = flow.Peel(rv)
+							if mi, ok := rv.(*ssa.MakeInterface); ok {
+								rv = flow.Peel(mi.X)
+							}
+							if ct, ok := rv.(*ssa.ChangeType); ok {
+								rv = ct.X
+							}
+							if mc, ok := rv.(*ssa.MakeClosure); ok && flow.Unwrap(mc.Fn.(*ssa.Function)) == h {
+								found = true
+							}
+						}
 					}
 				}
 				break
